@@ -31,9 +31,14 @@ pub async fn on_formatting_handler(
     _: CancellationToken,
 ) -> Option<Vec<TextEdit>> {
     let uri = params.text_document.uri;
+    // Lock order: workspace_manager before analysis (released before analysis is taken).
+    let client_id = context
+        .workspace_manager()
+        .read()
+        .await
+        .client_config
+        .client_id;
     let analysis = context.analysis().read().await;
-    let workspace_manager = context.workspace_manager().read().await;
-    let client_id = workspace_manager.client_config.client_id;
     let emmyrc = analysis.get_emmyrc();
 
     let file_id = analysis.get_file_id(&uri)?;
